@@ -248,6 +248,8 @@ func (i *interpreter) fsOpen(path string, flag int) value {
 		i.touchDir(path)
 	} else if create && flag&oEXCL != 0 {
 		return tuple{(*value)(nil), i.pathError("open", path, "exist")}
+	} else if n.dir && flag&(oWRONLY|oRDWR) != 0 {
+		return tuple{(*value)(nil), i.pathError("open", path, "invalid")} // is a directory
 	}
 	if flag&oTRUNC != 0 && !n.dir {
 		n.size, n.segs, n.blob, n.isBlob = int64(0), nil, nil, false
